@@ -21,16 +21,15 @@ Proof.
   pose proof (row_gain_bound pf v (rowof g v) (rowof_nonneg g v Hnn)). pose proof (Hmpg v). lia.
 Qed.
 
-Lemma idx_in_range gn : - mpg <= gn <= mpg ->
-  tbl_idx mpg gn = Some (Z.to_nat (gn + mpg)) /\ (Z.to_nat (gn + mpg) < tlen mpg)%nat.
-Proof. intros H. split; [apply tbl_idx_ok; lia|unfold tlen; lia]. Qed.
+Lemma idx_in_range gn : - mpg <= gn <= mpg -> tbl_idx mpg gn = Some gn.
+Proof. apply tbl_idx_ok. Qed.
 
 (* ---- init_tables ---- *)
 Lemma init_tables_some p : length p = n -> forall pv g1 p1 rows t,
-  g = g1 ++ rows -> p = p1 ++ pv -> length g1 = length p1 -> length t = tlen mpg ->
+  g = g1 ++ rows -> p = p1 ++ pv -> length g1 = length p1 ->
   exists v2g t', init_tables p mpg (length p1) rows pv t = Some (v2g, t').
 Proof.
-  intros Lp. induction pv as [|x pv IH]; intros g1 p1 rows t Eg Epp Ll Lt; cbn [init_tables]; [eauto|].
+  intros Lp. induction pv as [|x pv IH]; intros g1 p1 rows t Eg Epp Ll; cbn [init_tables]; [eauto|].
   assert (Lg : length g = n) by (destruct Hwf; assumption).
   assert (Lrows : length rows = length (x :: pv)).
   { apply (f_equal (@length _)) in Eg. apply (f_equal (@length _)) in Epp. rewrite app_length in Eg, Epp. lia. }
@@ -41,16 +40,14 @@ Proof.
   { unfold pfun. rewrite Epp, app_nth2 by lia. rewrite Nat.sub_diag. reflexivity. }
   rewrite <- Ex. rewrite <- Er.
   rewrite row_gain_chk_ok by (rewrite Lp; apply rowof_wf; exact Hwf).
-  destruct (idx_in_range _ (gain_in_range (pfun p) (length p1))) as [-> Hlt].
-  rewrite tbl_upd_ok by (rewrite Lt; exact Hlt).
+  rewrite (idx_in_range _ (gain_in_range (pfun p) (length p1))).
+  rewrite tbl_upd_ok.
   replace (S (length p1)) with (length (p1 ++ [x])) by (rewrite app_length; cbn [length]; lia).
   match goal with |- context [init_tables _ _ _ _ _ ?t1] =>
-    assert (Lt1 : length t1 = tlen mpg) by (rewrite set_nth_length; exact Lt);
     destruct (IH (g1 ++ [r]) (p1 ++ [x]) rows t1) as [l [t2 E2]] end.
   - rewrite <- app_assoc; exact Eg.
   - rewrite <- app_assoc; exact Epp.
   - rewrite !app_length; cbn [length]; lia.
-  - exact Lt1.
   - rewrite E2. eauto.
 Qed.
 
@@ -79,13 +76,8 @@ Proof.
   apply IH. intros gn' b' v Hin Hv. eapply Hb; [right; exact Hin|exact Hv].
 Qed.
 
-Lemma buckets_desc_members (t : table) gn b : In (gn, b) (buckets_desc mpg t) -> exists i, b = nth i t [] /\ (i < length t)%nat.
-Proof.
-  unfold buckets_desc. rewrite <- in_rev. intros Hin. apply In_nth with (d := (0, [])) in Hin.
-  destruct Hin as [i [Hi E]]. rewrite combine_length, map_length, seq_length, Nat.min_id in Hi.
-  rewrite combine_nth in E by (rewrite map_length, seq_length; reflexivity).
-  inversion E. exists i. split; [reflexivity|exact Hi].
-Qed.
+Lemma buckets_desc_members (t : table) gn b : tsorted t -> In (gn, b) (buckets_desc mpg t) -> b = tget t gn.
+Proof. intros S Hin. unfold buckets_desc in Hin. symmetry. apply tsorted_In_tget; assumption. Qed.
 
 (* ---- the neighbour loop ---- *)
 Lemma wt_row_nonneg r u : Forall (fun e => 0 <= snd e) r -> 0 <= wt_row r u.
@@ -96,12 +88,12 @@ Qed.
 
 Lemma upd_nbrs_some p' init : length p' = n -> forall r v2g t,
   Forall (fun e => (fst e < n)%nat) r -> Forall (fun e => 0 <= snd e) r ->
-  length v2g = n -> length t = tlen mpg ->
+  length v2g = n ->
   (forall u x, nth_opt v2g u = Some (Some x) ->
      - mpg <= x <= mpg /\ - mpg <= x + (if (pfun p' u =? init)%N then 2 else -2) * wt_row r u <= mpg) ->
   upd_nbrs mpg p' init r v2g t <> None.
 Proof.
-  intros Lp'. induction r as [|[u0 w] r IH]; intros v2g t Fr Fw Lv Lt Hb; cbn [upd_nbrs]; [discriminate|].
+  intros Lp'. induction r as [|[u0 w] r IH]; intros v2g t Fr Fw Lv Hb; cbn [upd_nbrs]; [discriminate|].
   pose proof (Forall_inv Fr) as Hu0. pose proof (Forall_inv_tail Fr) as Fr'.
   pose proof (Forall_inv Fw) as Hw. pose proof (Forall_inv_tail Fw) as Fw'. cbn [fst snd] in Hu0, Hw.
   destruct (nth_opt_lt v2g u0 ltac:(lia)) as [o Eo]. rewrite Eo.
@@ -112,11 +104,9 @@ Proof.
     pose proof (wt_row_nonneg r u0 Fw') as W0.
     set (new := if (pu =? init)%N then old + 2 * w else old - 2 * w).
     assert (Bn : - mpg <= new <= mpg) by (unfold new; destruct (pu =? init)%N; lia).
-    destruct (idx_in_range old B1) as [-> Ho]. rewrite tbl_upd_ok by (rewrite Lt; exact Ho).
-    destruct (idx_in_range new Bn) as [-> Hn']. rewrite tbl_upd_ok by (rewrite set_nth_length, Lt; exact Hn').
+    rewrite (idx_in_range old B1), tbl_upd_ok. rewrite (idx_in_range new Bn), tbl_upd_ok.
     apply IH; auto.
     + now rewrite set_nth_length.
-    + now rewrite !set_nth_length.
     + intros u x Hx. destruct (Nat.eq_dec u0 u) as [->|Hne].
       * rewrite nth_opt_set_nth_same in Hx by lia. inversion Hx; subst x.
         split; [exact Bn|]. rewrite (pfun_nth_opt _ _ _ Ep). unfold new. destruct (pu =? init)%N; lia.
@@ -151,26 +141,26 @@ Qed.
 
 (* ---- one move ---- *)
 Lemma do_move_no_panic pstart best0 dbg st move_num v gn mint gv s : length pstart = n ->
-  inv g ws n mpg cap p_in pstart best0 st ->
+  inv g ws n cap p_in pstart best0 st ->
   choice_ok ws st mpg cap gn mint v gv = true ->
   do_move dbg g ws mpg st move_num v gn <> Panic s.
 Proof.
   intros Lps I Hc.
-  destruct (choice_ok_facts g ws n mpg cap Hws Hwpos p_in pstart best0 Lps st gn mint v gv I Hc)
+  destruct (choice_ok_facts g ws n mpg cap Hwpos p_in pstart best0 st gn mint v gv I Hc)
     as [Hvg [w [init [Ew [Ep [Li [Hw0 [Hfe Hvn]]]]]]]].
-  pose proof (i_len _ _ _ _ _ _ _ _ _ I) as Lp. pose proof (i_two _ _ _ _ _ _ _ _ _ I) as T2.
+  pose proof (i_len _ _ _ _ _ _ _ _ I) as Lp. pose proof (i_two _ _ _ _ _ _ _ _ I) as T2.
   unfold do_move. rewrite Ep, Ew.
   assert (Lg : length g = n) by (destruct Hwf; assumption).
   destruct (nth_opt_lt g v ltac:(lia)) as [r Er]. rewrite Er. pose proof (rowof_nth_opt g v r Er) as Er'.
   unfold other. replace (init <=? 1)%N with true by (symmetry; apply N.leb_le; exact Li).
-  pose proof (i_gain _ _ _ _ _ _ _ _ _ I v gn Hvg) as Eg.
+  pose proof (i_gain _ _ _ _ _ _ _ _ I v gn Hvg) as Eg.
   assert (Bg : - mpg <= gn <= mpg) by (rewrite Eg; apply gain_in_range).
-  destruct (idx_in_range gn Bg) as [-> Hi]. rewrite tbl_upd_ok by (rewrite (i_tbl_len _ _ _ _ _ _ _ _ _ I); exact Hi).
+  rewrite (idx_in_range gn Bg), tbl_upd_ok.
   assert (Hcut : s_cur st - gn = edge_cut_sprs g (set_nth (s_p st) v (1 - init)%N)).
   { rewrite edge_cut_sprs_eq by exact Hsorted.
     assert (Pv : pfun (s_p st) v = init) by (apply pfun_nth_opt; exact Ep).
     rewrite <- Pv. rewrite edge_cut_flip; try assumption; try (rewrite Lp; assumption).
-    rewrite (i_cur _ _ _ _ _ _ _ _ _ I). f_equal. exact Eg. }
+    rewrite (i_cur _ _ _ _ _ _ _ _ I). f_equal. exact Eg. }
   rewrite Hcut, Z.eqb_refl, andb_false_r.
   match goal with |- context [upd_nbrs ?a ?b ?c ?d ?e ?f] => destruct (upd_nbrs a b c d e f) as [[v2g' t2]|] eqn:Eu end;
     [discriminate|].
@@ -178,33 +168,32 @@ Proof.
   - rewrite set_nth_length. exact Lp.
   - rewrite <- Er'. apply rowof_wf. exact Hwf.
   - rewrite <- Er'. apply rowof_nonneg. exact Hnn.
-  - rewrite set_nth_length. apply (i_v2g_len _ _ _ _ _ _ _ _ _ I).
-  - rewrite set_nth_length. apply (i_tbl_len _ _ _ _ _ _ _ _ _ I).
+  - rewrite set_nth_length. apply (i_v2g_len _ _ _ _ _ _ _ _ I).
   - intros u x Hx. destruct (Nat.eq_dec v u) as [->|Hne].
-    + rewrite nth_opt_set_nth_same in Hx by (rewrite (i_v2g_len _ _ _ _ _ _ _ _ _ I); exact Hvn). discriminate.
+    + rewrite nth_opt_set_nth_same in Hx by (rewrite (i_v2g_len _ _ _ _ _ _ _ _ I); exact Hvn). discriminate.
     + rewrite nth_opt_set_nth_other in Hx by exact Hne.
-      pose proof (i_gain _ _ _ _ _ _ _ _ _ I u x Hx) as Ex. rewrite Ex. split; [apply gain_in_range|].
+      pose proof (i_gain _ _ _ _ _ _ _ _ I u x Hx) as Ex. rewrite Ex. split; [apply gain_in_range|].
       rewrite <- Er'. rewrite (gain_after_move (s_p st) v init u Lp T2 Ep Hvn ltac:(congruence)).
       apply gain_in_range.
 Qed.
 
 (* ---- the move loop, the pass loop, the entry point ---- *)
 Lemma fm_moves_no_panic pstart best0 s : length pstart = n -> forall fuel move_num st orc,
-  inv g ws n mpg cap p_in pstart best0 st -> length (s_hist st) = move_num ->
+  inv g ws n cap p_in pstart best0 st -> length (s_hist st) = move_num ->
   fm_moves cfg g ws mpg cap fuel move_num st orc <> Panic s.
 Proof.
   intros Lps. induction fuel as [|f IH]; intros move_num st orc I Hmn; cbn [fm_moves]; [discriminate|].
   destruct (match fm_max_moves cfg with Some m => (m <=? N.of_nat move_num)%N | None => false end); [discriminate|].
   destruct (find_top ws (s_p st) (s_pw st) cap (buckets_desc mpg (s_g2v st))) as [[[gn mint]|]|] eqn:Ef; try discriminate.
-  2:{ exfalso. revert Ef. apply find_top_some; [apply (i_len _ _ _ _ _ _ _ _ _ I)|apply (i_two _ _ _ _ _ _ _ _ _ I)|].
-      intros gn b v Hin Hv. apply buckets_desc_members in Hin. destruct Hin as [i [-> _]].
-      apply (i_bucket _ _ _ _ _ _ _ _ _ I) in Hv. apply nth_opt_Some in Hv.
-      rewrite (i_v2g_len _ _ _ _ _ _ _ _ _ I) in Hv. exact Hv. }
+  2:{ exfalso. revert Ef. apply find_top_some; [apply (i_len _ _ _ _ _ _ _ _ I)|apply (i_two _ _ _ _ _ _ _ _ I)|].
+      intros gn b v Hin Hv. apply buckets_desc_members in Hin; [|apply (i_sorted _ _ _ _ _ _ _ _ I)]. subst b.
+      apply (i_bucket _ _ _ _ _ _ _ _ I) in Hv. apply nth_opt_Some in Hv.
+      rewrite (i_v2g_len _ _ _ _ _ _ _ _ I) in Hv. exact Hv. }
   destruct ((gn <=? 0) && (fm_max_bad cfg <=? s_nbad st)%N); [discriminate|].
   destruct orc as [|[v gv] orc']; [discriminate|].
   destruct (choice_ok ws st mpg cap gn mint v gv) eqn:Hc; [|discriminate].
   match goal with |- context [do_move _ _ _ _ ?x _ _ _] => set (st1 := x) in * end.
-  assert (I1 : inv g ws n mpg cap p_in pstart best0 st1) by (apply inv_set_nbad; exact I).
+  assert (I1 : inv g ws n cap p_in pstart best0 st1) by (apply inv_set_nbad; exact I).
   assert (Hc1 : choice_ok ws st1 mpg cap gn mint v gv = true) by exact Hc.
   destruct (do_move (fm_dbg cfg) g ws mpg st1 move_num v gn) as [st2|e|s'|] eqn:Ed; try discriminate.
   - destruct (do_move_inv g ws n mpg cap Hwf Hsym Hnsl Hws Hwpos p_in pstart best0 Lps _ st1 move_num v gn mint gv st2
@@ -222,10 +211,9 @@ Proof.
   destruct orc as [|[rc moves] orc']; [discriminate|].
   destruct (negb (rc =? best)); [discriminate|].
   pose proof (q_len _ _ _ _ _ _ _ _ _ _ _ _ Q) as Lp.
-  destruct (init_tables_some p Lp p [] [] g (repeat [] (Z.to_nat (2 * mpg + 1))) eq_refl eq_refl eq_refl
-              (repeat_length _ _)) as [v2g [t Hi]].
+  destruct (init_tables_some p Lp p [] [] g [] eq_refl eq_refl eq_refl) as [v2g [t Hi]].
   cbn [length] in Hi. rewrite Hi.
-  assert (I0 : inv g ws n mpg cap p_in p best
+  assert (I0 : inv g ws n cap p_in p best
                  {| s_p := p; s_pw := pw; s_v2g := v2g; s_g2v := t; s_cur := best; s_best := best;
                     s_bestmove := None; s_nbad := 0%N; s_hist := [] |}).
   { rewrite (q_pw _ _ _ _ _ _ _ _ _ _ _ _ Q).
@@ -236,7 +224,7 @@ Proof.
   - assert (Hm0 : forall m : N, fm_max_moves cfg = Some m -> (N.of_nat 0 <= m)%N) by (intros m _; lia).
     destruct (fm_moves_inv g ws n mpg cap Hwf Hsym Hnsl Hws Hwpos p_in p best Lp cfg _ 0%nat _ _ st I0 eq_refl Hm0 Hm)
       as [I _].
-    destruct (pass_end g ws n mpg cap Hwf Hws p_in p best Lp st I) as [Er _].
+    destruct (pass_end g ws n cap Hwf Hws p_in p best Lp st I) as [Er _].
     fold (rewind_to st). rewrite Er.
     assert (Er2 : rewind ws (s_p st) (s_pw st)
                     (skipn (match s_bestmove st with Some m => S m | None => O end) (s_hist st))
@@ -261,7 +249,7 @@ Proof.
     + rewrite E. discriminate.
     + congruence.
     + rewrite E. destruct C as [Hwf [Hso [Hsy [Hns [Hnn Hwp]]]]].
-      apply (fm_passes_no_panic cfg g ws (length (x0 :: p0')) mpg cap' (x0 :: p0') Hwf Hsy Hns Hnn Hso Lw Hwp M0 M1 eq_refl).
+      apply (fm_passes_no_panic cfg g ws (length (x0 :: p0')) mpg cap' (x0 :: p0') Hwf Hsy Hns Hnn Hso Lw Hwp M1 eq_refl).
       exact Q.
 Qed.
 
@@ -292,29 +280,6 @@ Proof.
   - apply IH in H. destruct H as [b' [v [Hin [Hv F]]]]. exists b', v. split; [right; exact Hin|]. split; assumption.
 Qed.
 
-Lemma buckets_desc_label mpg (t : table) gn b : In (gn, b) (buckets_desc mpg t) ->
-  exists i, b = nth i t [] /\ (i < length t)%nat /\ gn = Z.of_nat i - mpg.
-Proof.
-  unfold buckets_desc. rewrite <- in_rev. intros Hin. apply In_nth with (d := (0, [])) in Hin.
-  destruct Hin as [i [Hi E]]. rewrite combine_length, map_length, seq_length, Nat.min_id in Hi.
-  rewrite combine_nth in E by (rewrite map_length, seq_length; reflexivity).
-  inversion E as [[E1 E2]]. exists i. split; [reflexivity|]. split; [exact Hi|].
-  rewrite (nth_indep _ 0 (Z.of_nat 0 - mpg)) by (rewrite map_length, seq_length; exact Hi).
-  rewrite (map_nth (fun i => Z.of_nat i - mpg)), seq_nth by exact Hi. reflexivity.
-Qed.
-
-(* whenever the code makes a move, some choice passes the oracle test *)
-Lemma choice_exists ws st mpg cap gn mint : 0 <= mpg ->
-  find_top ws (s_p st) (s_pw st) cap (buckets_desc mpg (s_g2v st)) = Some (Some (gn, mint)) ->
-  exists v, choice_ok ws st mpg cap gn mint v gn = true.
-Proof.
-  intros M0 H. apply find_top_witness in H. destruct H as [b [v [Hin [Hv F]]]].
-  apply buckets_desc_label in Hin. destruct Hin as [i [Eb [Li Eg]]].
-  exists v. unfold choice_ok. rewrite Z.eqb_refl, F, Z.eqb_refl. cbn [andb]. rewrite andb_true_r.
-  rewrite tbl_idx_ok by lia. replace (Z.to_nat (gn + mpg)) with i by lia.
-  rewrite (nth_opt_nth_lt _ i [] Li). rewrite <- Eb. apply existsb_exists. exists v. split; [exact Hv|apply Nat.eqb_refl].
-Qed.
-
 Lemma do_move_ok_or_panic dbg g ws mpg st mn v gn :
   (exists st', do_move dbg g ws mpg st mn v gn = Ok st') \/ (exists s, do_move dbg g ws mpg st mn v gn = Panic s).
 Proof.
@@ -338,24 +303,37 @@ Hypothesis Hmpg0 : 0 <= mpg.
 Hypothesis Hmpg : forall v, row_weight (rowof g v) <= mpg.
 Hypothesis Hpin : length p_in = n.
 
+(* whenever the code makes a move, some choice passes the oracle test *)
+Lemma choice_exists pstart best0 st gn mint : inv g ws n cap p_in pstart best0 st ->
+  find_top ws (s_p st) (s_pw st) cap (buckets_desc mpg (s_g2v st)) = Some (Some (gn, mint)) ->
+  exists v, choice_ok ws st mpg cap gn mint v gn = true.
+Proof.
+  intros I H. apply find_top_witness in H. destruct H as [b [v [Hin [Hv F]]]].
+  apply (buckets_desc_members mpg) in Hin; [|apply (i_sorted _ _ _ _ _ _ _ _ I)]. subst b.
+  pose proof (i_bucket _ _ _ _ _ _ _ _ I _ _ Hv) as Hg. pose proof (i_gain _ _ _ _ _ _ _ _ I _ _ Hg) as Eg.
+  exists v. unfold choice_ok. rewrite Z.eqb_refl, F, Z.eqb_refl. cbn [andb]. rewrite andb_true_r.
+  rewrite tbl_idx_ok by (rewrite Eg; apply (gain_in_range g ws n mpg p_in Hnn Hws Hmpg Hpin)).
+  apply existsb_exists. exists v. split; [exact Hv|apply Nat.eqb_refl].
+Qed.
+
 Lemma fm_moves_exists pstart best0 : length pstart = n -> forall fuel mn st,
-  inv g ws n mpg cap p_in pstart best0 st -> length (s_hist st) = mn -> (n < fuel + mn)%nat ->
+  inv g ws n cap p_in pstart best0 st -> length (s_hist st) = mn -> (n < fuel + mn)%nat ->
   exists orc st', fm_moves cfg g ws mpg cap fuel mn st orc = Ok (MvOk st').
 Proof.
   intros Lps. induction fuel as [|f IH]; intros mn st I Hmn Hf.
-  - pose proof (hist_short g ws n mpg cap p_in Hws Hpin pstart best0 st I). lia.
+  - pose proof (hist_short g ws n cap p_in Hws Hpin pstart best0 st I). lia.
   - cbn [fm_moves].
     destruct (match fm_max_moves cfg with Some m => (m <=? N.of_nat mn)%N | None => false end); [exists [], st; reflexivity|].
     destruct (find_top ws (s_p st) (s_pw st) cap (buckets_desc mpg (s_g2v st))) as [[[gn mint]|]|] eqn:Ef.
-    3:{ exfalso. revert Ef. apply (find_top_some ws n cap p_in Hws Hpin); [apply (i_len _ _ _ _ _ _ _ _ _ I)|apply (i_two _ _ _ _ _ _ _ _ _ I)|].
-        intros gn b v Hin Hv. apply buckets_desc_members in Hin. destruct Hin as [i [-> _]].
-        apply (i_bucket _ _ _ _ _ _ _ _ _ I) in Hv. apply nth_opt_Some in Hv.
-        rewrite (i_v2g_len _ _ _ _ _ _ _ _ _ I) in Hv. exact Hv. }
+    3:{ exfalso. revert Ef. apply (find_top_some ws n cap p_in Hws Hpin); [apply (i_len _ _ _ _ _ _ _ _ I)|apply (i_two _ _ _ _ _ _ _ _ I)|].
+        intros gn b v Hin Hv. apply buckets_desc_members in Hin; [|apply (i_sorted _ _ _ _ _ _ _ _ I)]. subst b.
+        apply (i_bucket _ _ _ _ _ _ _ _ I) in Hv. apply nth_opt_Some in Hv.
+        rewrite (i_v2g_len _ _ _ _ _ _ _ _ I) in Hv. exact Hv. }
     2:{ exists [], st; reflexivity. }
     destruct ((gn <=? 0) && (fm_max_bad cfg <=? s_nbad st)%N); [exists [], st; reflexivity|].
-    destruct (choice_exists ws st mpg cap gn mint Hmpg0 Ef) as [v Hc].
+    destruct (choice_exists pstart best0 st gn mint I Ef) as [v Hc].
     set (st1 := with_nbad st (if gn <=? 0 then (s_nbad st + 1)%N else 0%N)).
-    assert (I1 : inv g ws n mpg cap p_in pstart best0 st1) by (apply inv_set_nbad; exact I).
+    assert (I1 : inv g ws n cap p_in pstart best0 st1) by (apply inv_set_nbad; exact I).
     assert (Hc1 : choice_ok ws st1 mpg cap gn mint v gn = true) by exact Hc.
     destruct (do_move_ok_or_panic (fm_dbg cfg) g ws mpg st1 mn v gn) as [[st2 Ed]|[s Ed]].
     + destruct (do_move_inv g ws n mpg cap Hwf Hsym Hnsl Hws Hwpos p_in pstart best0 Lps _ st1 mn v gn mint gn st2
@@ -363,7 +341,7 @@ Proof.
       destruct (IH (S mn) st2 I2 L2 ltac:(lia)) as [orc' [st' E']].
       exists ((v, gn) :: orc'), st'. rewrite Hc. fold st1. unfold with_nbad in st1. fold st1. rewrite Ed. exact E'.
     + exfalso. revert Ed.
-      apply (do_move_no_panic g ws n mpg cap p_in Hwf Hsym Hnsl Hnn Hsorted Hws Hwpos Hmpg0 Hmpg Hpin pstart best0 _ st1 mn v gn mint gn s Lps I1 Hc1).
+      apply (do_move_no_panic g ws n mpg cap p_in Hwf Hsym Hnsl Hnn Hsorted Hws Hwpos Hmpg Hpin pstart best0 _ st1 mn v gn mint gn s Lps I1 Hc1).
 Qed.
 
 Lemma fm_passes_exists : forall fuel pass p pw best mpp rpp,
@@ -374,10 +352,9 @@ Proof.
   destruct (match fm_max_passes cfg with Some m => (m <=? pass)%N | None => false end) eqn:Hlim.
   { exists [], p, mpp, rpp. reflexivity. }
   pose proof (q_len _ _ _ _ _ _ _ _ _ _ _ _ Q) as Lp.
-  destruct (init_tables_some g ws n mpg p_in Hwf Hnn Hws Hmpg0 Hmpg Hpin p Lp p [] [] g (repeat [] (Z.to_nat (2 * mpg + 1))) eq_refl eq_refl eq_refl
-              (repeat_length _ _)) as [v2g [t Hi]].
+  destruct (init_tables_some g ws n mpg p_in Hwf Hnn Hws Hmpg Hpin p Lp p [] [] g [] eq_refl eq_refl eq_refl) as [v2g [t Hi]].
   cbn [length] in Hi.
-  assert (I0 : inv g ws n mpg cap p_in p best
+  assert (I0 : inv g ws n cap p_in p best
                  {| s_p := p; s_pw := pw; s_v2g := v2g; s_g2v := t; s_cur := best; s_best := best;
                     s_bestmove := None; s_nbad := 0%N; s_hist := [] |}).
   { rewrite (q_pw _ _ _ _ _ _ _ _ _ _ _ _ Q).
@@ -388,7 +365,7 @@ Proof.
   assert (Hm0 : forall m : N, fm_max_moves cfg = Some m -> (N.of_nat 0 <= m)%N) by (intros m _; lia).
   destruct (fm_moves_inv g ws n mpg cap Hwf Hsym Hnsl Hws Hwpos p_in p best Lp cfg _ 0%nat _ _ st I0 eq_refl Hm0 Hm)
     as [I _].
-  destruct (pass_end g ws n mpg cap Hwf Hws p_in p best Lp st I) as [Er _].
+  destruct (pass_end g ws n cap Hwf Hws p_in p best Lp st I) as [Er _].
   assert (Er2 : rewind ws (s_p st) (s_pw st)
                   (skipn (match s_bestmove st with Some m => S m | None => O end) (s_hist st))
                 = Some (undo (s_p st) (skipn (rewind_to st) (s_hist st)),
@@ -448,7 +425,7 @@ Proof.
   - destruct (fm_unfold_all cfg (fm_fuel g (x0 :: p0')) g ws (x0 :: p0') cap C ltac:(discriminate) Lw T2 Hcap)
       as [mpg [M0 [M1 [E Q]]]].
     destruct C as [Hwf [Hso [Hsy [Hns [Hnn Hwp]]]]].
-    destruct (fm_passes_exists cfg g ws (length (x0 :: p0')) mpg cap (x0 :: p0') Hwf Hsy Hns Hnn Hso Lw Hwp M0 M1 eq_refl
+    destruct (fm_passes_exists cfg g ws (length (x0 :: p0')) mpg cap (x0 :: p0') Hwf Hsy Hns Hnn Hso Lw Hwp M1 eq_refl
                 (fm_fuel g (x0 :: p0')) _ _ _ _ _ _ Q ltac:(unfold fm_fuel; lia)) as [orc [p [mpp [rpp E']]]].
     exists orc, p, mpp, rpp. rewrite E. exact E'.
 Qed.
